@@ -139,6 +139,11 @@ def run(chk):
     from . import c04
     c04.d1_stencils(chk, repo)
     c04.d2_thresholds(chk, repo)
+    # ... and on the whole pipeline behind every diff() the four operators call: linearity, run splitting and the per-line /
+    # per-component scatter of Field.diff with its result array (dtype of the buffers included: complex fields)
+    c04.d3_linearity(chk, repo)
+    c04.d4_runs(chk, repo)
+    c04.d5_field_diff(chk, repo)
     chk.assume("polynomial exactness and the vector identities are consequences of C04 plus linear algebra and are numeric; "
                "commutation with quarter turns is not decided")
     chk.trust("`a << b` on fields stacks components in operand order (C03)")
